@@ -867,6 +867,12 @@ def split_index(rho, factors):
     key = ("split", zi(rho).sexpr(), tuple(zi(n).sexpr() for n in factors))
     if key in c.memo:
         return c.memo[key]
+    # rho is (syntactically) the flat index of an earlier split with the same factors: give back those indices instead of
+    # inventing new ones (uniqueness of the mixed-radix representation is beyond the solver's linear reasoning)
+    back = c.memo.get(("unsplit", z3.simplify(zi(rho)).sexpr(), key[2]))
+    if back is not None:
+        c.memo[key] = back
+        return back
     ids = tuple(c.fresh_int("ix") for _ in factors)
     facts = [zi(rho) == zi(flat_index(ids, factors))]
     for i, n in zip(ids[1:], factors[1:]):
@@ -876,6 +882,7 @@ def split_index(rho, factors):
     c.fact(z3.Implies(z3.And(zi(rho) >= 0, zi(rho) < zi(prod(factors))),
                       z3.And(*facts, ids[0] < zi(factors[0]))))
     c.memo[key] = ids
+    c.memo[("unsplit", z3.simplify(zi(flat_index(ids, factors))).sexpr(), key[2])] = ids
     return ids
 
 
